@@ -312,6 +312,35 @@ def cap_rule(index, ctx, cls, fwd):
     found = 0
     from ..normalize import split_walrus
 
+    # the bound handed to a helper as a PARAMETER (`def _cap(self, w, matrix, max_norm=1.0)`): the helper is read with the parameter standing for
+    # self.max_norm, and every call of it must pass exactly self.max_norm there — a call that omits it caps at the default instead
+    import copy as _cp
+    import dataclasses as _dc
+
+    hosts2 = []
+    for H in hosts:
+        ps = [a.arg for a in H.node.args.args[1:]]
+        if H is not fwd and "max_norm" in ps and _dc.is_dataclass(H):
+            pos = ps.index("max_norm")
+            for m_ in cls.methods.values():
+                for c in ast.walk(m_.node):
+                    if isinstance(c, ast.Call) and self_attr(c.func) == H.name:
+                        arg = next((k.value for k in c.keywords if k.arg == "max_norm"), c.args[pos] if pos < len(c.args) else None)
+                        ctx.require(arg is not None and self_attr(arg) == "max_norm", "R4", f"{m_.short}: `{norm_text(c)[:70]}` passes self.max_norm as the bound",
+                                    "the bound of this call is the configured max_norm",
+                                    f"`{norm_text(c)[:80]}` " + ("does not pass the bound: the helper's default is used" if arg is None else f"passes `{norm_text(arg)[:30]}` as the bound")
+                                    + " — on this path the returned vector is capped at another value than max_norm (longer than max_norm when max_norm is smaller, rescaled although "
+                                    "the cap is disabled when max_norm <= 0)", m_.loc(c))
+
+            class P2(ast.NodeTransformer):
+                def visit_Name(self, n):
+                    if n.id == "max_norm" and isinstance(n.ctx, ast.Load):
+                        return ast.copy_location(ast.Attribute(value=ast.Name(id="self", ctx=ast.Load()), attr="max_norm", ctx=ast.Load()), n)
+                    return n
+
+            H = _dc.replace(H, node=ast.fix_missing_locations(P2().visit(_cp.deepcopy(H.node))))
+        hosts2.append(H)
+    hosts = hosts2
     for H in hosts:
         hnode = split_walrus(H.node)  # `if max_norm > 0 and (norm := ...) > max_norm:` read as the two nested tests it abbreviates
         defs = _single_defs(hnode)
